@@ -149,6 +149,18 @@ func (fc *fileCache) Files() map[string]ContextFile {
 	return fc.files
 }
 
+// sameDirectory reports whether two root directories denote the same directory. NewFileCache keeps the root
+// directory as it was given while NewFileCacheUsingContext makes it absolute, so the same directory can be
+// spelled differently (relative, or with a trailing separator).
+func sameDirectory(dir1 string, dir2 string) bool {
+	if dir1 == dir2 {
+		return true
+	}
+	abs1, err1 := filepath.Abs(dir1)
+	abs2, err2 := filepath.Abs(dir2)
+	return err1 == nil && err2 == nil && abs1 == abs2
+}
+
 // MergeFileCaches merges any number of file caches into one file cache.
 // The new root directory will be the root directory of the last file cache
 // argument. File keys found later in iteration will overwrite previously
@@ -164,7 +176,7 @@ func MergeFileCaches(fileCaches ...FileCache) (FileCache, error) {
 		for key, contextFile := range fc.Files() {
 			cache[key] = contextFile
 		}
-		if rootDir != "" && rootDir != fc.RootDir() {
+		if rootDir != "" && !sameDirectory(rootDir, fc.RootDir()) {
 			return nil, fmt.Errorf("file caches have different root directory %q, %q", rootDir, fc.RootDir())
 		}
 		rootDir = fc.RootDir()
